@@ -154,6 +154,7 @@ func runC09(c *core.Ctx) {
 	c.Floor("R09b", 4, "Node.Data type, string(line[:i]) x2, string(ByteUnescape(...)), string(Elems[0].Data)")
 	c09RawReads(c)
 	c09LocalRetention(c, t, "R09i")
+	c09Locals(c, t)
 }
 
 // c09SelfMove: the stored value is (a reslice / element of) what is loaded from the very holder it is stored into.
